@@ -269,7 +269,7 @@ type shape struct {
 }
 
 var shapeHeaders = []string{"none", "X-A", "duplicate-values", "content-length-n", "content-length-0"}
-var shapeBodies = []string{"none", "1-byte", "3-writes", "over-mem-threshold"}
+var shapeBodies = []string{"none", "1-byte", "3-writes", "over-mem-threshold", "2-writes-then-empty-write", "only-an-empty-write"}
 
 func (s shape) String() string {
 	return fmt.Sprintf("status=%d headers=%s body=%s discarded-attempt=%v", s.status, shapeHeaders[s.headers], shapeBodies[s.body], s.retry)
@@ -283,6 +283,10 @@ func shapeBody(b int) [][]byte {
 		return [][]byte{[]byte("first-"), []byte("second-"), []byte("third")}
 	case 3:
 		return [][]byte{bytes.Repeat([]byte("0123456789abcdef"), 8)} // 128 bytes, memory threshold 32
+	case 4:
+		return [][]byte{[]byte("hello "), []byte("world"), {}} // e.g. io.WriteString(w, "") of an empty template fragment
+	case 5:
+		return [][]byte{{}}
 	}
 	return nil
 }
